@@ -77,6 +77,7 @@ package stage
 //@   loop 0 backedge assert each-waiter-queued: went((*Stage).finalizeQueue) && lastgoarg((*Stage).finalizeQueue, 1) == waiting[rangeindex]
 
 //@ func (*Stage).putFileAway
+//@   before call os.MkdirAll assert target-directory-made-after-the-record: called(sts.ReceiveLogger.Received)
 //@   before call fileutil.Move assert log-before-move: called(sts.ReceiveLogger.Received) && as(lastarg(sts.ReceiveLogger.Received, 1), *finalFile) == file
 //@   before call fileutil.Move assert moves-wait-body: arg0 == file.path+waitExt && arg1 == pathjoin(s.targetDir, ite(file.renamed != "", file.renamed, file.name))
 //@   before call (*Stage).toCache assert finalized-after-move: arg1 == file && arg2 == stateFinalized && called(fileutil.Move) && lastret(fileutil.Move, 0) == nil
@@ -336,4 +337,17 @@ package stage
 //@   before call readLocalCompanion assert reads-the-companion-found: arg0 == path && lastret(os.Stat, 1) == nil && shared(lock)
 //@   on callback return assert every-readable-companion-is-reported: called(readLocalCompanion) && lastret(readLocalCompanion, 1) == nil ==> stored(partials)
 //@   forbid call isCompanionComplete label every-readable-companion-is-reported
+//@   modifies everything
+
+// ---------------------------------------------------------------- companions of older versions, listings (C07 C20)
+
+// a companion in the old format keeps what identifies the file version: hash, name, predecessor, size, source
+//@ func upgradeCompanion
+//@   on return assert keeps-the-identity-of-the-version: cmp != nil && cmp.Hash == old.Hash && cmp.Name == old.Path && cmp.Prev == old.Prev && cmp.Size == old.Size && cmp.Source == old.Source
+//@   modifies everything
+
+// the list of partly received files is what the body decodes to: a body that does not decode (an empty
+// one included) is an error, never an empty list
+//@ func ReadCompanions
+//@   on return assert a-list-needs-a-decoded-body: err == nil ==> called(encoding/json.Unmarshal)
 //@   modifies everything
